@@ -2,7 +2,11 @@
 DIRECT ORACLE of the property on an implementation event log (independent of the Lean model).
 
 program = {"limits": [cap, ...], "fibers": [[op, ...], ...]}     fiber 0 = main (spawns 1..n-1 in order, then its ops)
-op      = ("g", c, x) | ("t", c) | ("c", c) | ("y",) | ("s", [clause, ...]) | ("r", [clause, ...])
+op      = ("g", c, x) | ("t", c) | ("c", c) | ("y",) | ("y", ms) | ("s", [clause, ...]) | ("r", [clause, ...])
+          | ("x", g)  (ev/cancel fiber-g "cancelled"), g != own fiber
+          | ("d", ms, n)  (ev/with-deadline ms/1000 <the next n ops of this fiber>)
+Durations: the harness clock advances 16 ms per read; a non-zero duration is 16*m + u with u in 1..15 unique in the
+program, so that no two timers ever share a deadline (the heap's tie-breaking is not modelled).
 clause  = ("t", c) | ("g", c, x)
 Item values x are unique per program (they are the ghost ids).
 """
@@ -12,10 +16,18 @@ import re
 
 # ------------------------------------------------------------------------------------------------ values / rendering
 def assign_values(prog):
-    """Give every give op / give clause a unique value  f*1000 + i*10 + k + 1."""
+    """Give every give op / give clause a unique value  f*1000 + i*10 + k + 1; make timer durations distinct mod 16."""
     out = []
+    u = [0]
+
+    def dur(ms):
+        if ms == 0:
+            return 0
+        u[0] += 1
+        return (ms // 16) * 16 + u[0] if u[0] <= 15 else 0
     for f, ops in enumerate(prog["fibers"]):
         fo = []
+        ends = []
         for i, op in enumerate(ops):
             if op[0] == "g":
                 fo.append(("g", op[1], f * 1000 + i * 10 + 1))
@@ -24,6 +36,13 @@ def assign_values(prog):
                 for k, cl in enumerate(op[1]):
                     cls.append(("g", cl[1], f * 1000 + i * 10 + k + 1) if cl[0] == "g" else cl)
                 fo.append((op[0], cls))
+            elif op[0] == "y" and len(op) > 1:
+                fo.append(("y", dur(op[1])))
+            elif op[0] == "d":
+                # the body is the next n ops, clamped to the fiber's end and to the enclosing body
+                end = min([i + 1 + op[2], len(ops)] + [e for e in ends if e > i])
+                ends.append(end)
+                fo.append(("d", dur(op[1] if op[1] else 1), end - i - 1))
             else:
                 fo.append(op)
         out.append(fo)
@@ -43,7 +62,11 @@ def op_tok(op):
     if k == "c":
         return "c%d" % op[1]
     if k == "y":
-        return "y"
+        return "y" if len(op) == 1 or op[1] == 0 else "y%d" % op[1]
+    if k == "x":
+        return "x%d" % op[1]
+    if k == "d":
+        return "d%d:%d" % (op[1], op[2])
     return k + ":" + ",".join(clause_tok(c) for c in op[1])
 
 
@@ -70,19 +93,32 @@ def op_janet(op):
     if k == "c":
         return "(ev/chan-close c%d)" % op[1]
     if k == "y":
-        return "(ev/sleep 0)"
+        return "(ev/sleep %s)" % ("0" if len(op) == 1 else "%.3f" % (op[1] / 1000.0))
+    if k == "x":
+        return "(do (ev/cancel (fibs %d) \"cancelled\") nil)" % op[1]
     return "(%s %s)" % ("ev/select" if k == "s" else "ev/rselect", " ".join(clause_janet(c) for c in op[1]))
 
 
 def janet_source(prog):
-    lines = ["(defn vprog []"]
+    lines = ["(defn vprog []", "  (def fibs @{0 (fiber/current)})"]
     for c, cap in enumerate(prog["limits"]):
         lines.append("  (def c%d (vchan (ev/chan %d) %d))" % (c, cap, c))
 
-    def body(f, ops):
-        return " ".join("(vb %d %d) (ve %d %d %s)" % (f, i, f, i, op_janet(op)) for i, op in enumerate(ops))
+    def body(f, ops, i0=0):
+        out, i = [], 0
+        while i < len(ops):
+            op = ops[i]
+            if op[0] == "d":
+                n = op[2]
+                inner = body(f, ops[i + 1:i + 1 + n], i0 + i + 1)
+                out.append("(vb %d %d) (ev/with-deadline %.3f %s nil)" % (f, i0 + i, op[1] / 1000.0, inner))
+                i += 1 + n
+            else:
+                out.append("(vb %d %d) (ve %d %d %s)" % (f, i0 + i, f, i0 + i, op_janet(op)))
+                i += 1
+        return " ".join(out)
     for f in range(1, len(prog["fibers"])):
-        lines.append("  (vreg (ev/go (fn [] %s nil)) %d)" % (body(f, prog["fibers"][f]), f))
+        lines.append("  (put fibs %d (vreg (ev/go (fn [] %s nil)) %d))" % (f, body(f, prog["fibers"][f]), f))
     lines.append("  " + body(0, prog["fibers"][0]) + " nil)")
     return "\n".join(lines) + "\n"
 
@@ -156,7 +192,7 @@ def family_nth(nch, total, index, caps=(0, 1, 2), **kw):
     return assign_values({"limits": limits, "fibers": fibers})
 
 
-def random_program(rng, max_fibers=4, max_ops=4, max_ch=3, max_cap=2, max_clauses=3, same_chan=False):
+def random_program(rng, max_fibers=4, max_ops=4, max_ch=3, max_cap=2, max_clauses=3, same_chan=False, timing=False):
     nch = rng.range(1, max_ch)
     nf = rng.range(2, max_fibers)
     limits = [rng.range(0, max_cap) for _ in range(nch)]
@@ -164,9 +200,18 @@ def random_program(rng, max_fibers=4, max_ops=4, max_ch=3, max_cap=2, max_clause
     for f in range(nf):
         n = rng.range(0 if f == 0 else 1, max_ops)
         ops = []
-        for _ in range(n):
+        for k in range(n):
             r = rng.below(100)
             c = rng.below(nch)
+            if timing and rng.chance(1, 4):
+                t = rng.below(10)
+                if t < 4:
+                    ops.append(("x", rng.choice([g for g in range(nf) if g != f])))
+                elif t < 7:
+                    ops.append(("y", 16 * rng.below(4)))
+                else:
+                    ops.append(("d", 16 * rng.range(0, 3), rng.range(1, 3)))
+                continue
             if r < 24:
                 ops.append(("g", c, 0))
             elif r < 48:
@@ -260,12 +305,13 @@ def oracle(prog, verdict, log):
     fails = []
     stats = {"gives_immediate": 0, "gives_blocked": 0, "takes_ready": 0, "takes_waited": 0, "selects_immediate": 0,
              "selects_waited": 0, "close_wakes": 0, "received": 0, "nil_results": 0, "losing_give_delivered": 0,
-             "deadlocks": 0, "errors": 0}
+             "deadlocks": 0, "errors": 0, "stale_tasks_in_runq": 0, "cancelled_fibers": 0}
     try:
         ev = parse_log(log)
     except Exception as e:  # malformed log is a result too
         return [("malformed-log", repr(e))], stats
     fibers = prog["fibers"]
+    timing = any(op[0] in "xd" for ops in fibers for op in ops)   # cancellation: a waiter may die instead of being woken
     # who offers which value on which channel
     offered = {}   # value -> (fiber, opidx, chan, is_select)
     for f, ops in enumerate(fibers):
@@ -318,6 +364,13 @@ def oracle(prog, verdict, log):
         if e[0] in "LF":
             last_state = e[1]
             check_state(e[1], e[0])
+            for q in e[1]["q"]:
+                parts = q.split(":")
+                try:
+                    if e[1]["s"][int(parts[0])] != int(parts[-1]):
+                        stats["stale_tasks_in_runq"] += 1
+                except (ValueError, IndexError):
+                    pass
             continue
         if e[0] == "B":
             _, f, i, st = e
@@ -335,7 +388,7 @@ def oracle(prog, verdict, log):
                 if ch and not ch["closed"]:
                     # closing wakes every waiter: each live entry's fiber must next see nil / [:close c]
                     for (wf, ws, mode) in ch["r"] + ch["w"]:
-                        if live((wf, ws, mode), st) and wf not in expect_close:
+                        if live((wf, ws, mode), st) and wf not in expect_close and not timing:
                             expect_close[wf] = ("nil" if mode in "RW" else "close:%d" % c, c)
                             stats["close_wakes"] += 1
                 closed_at[c] = True
@@ -399,9 +452,11 @@ def oracle(prog, verdict, log):
         elif k == "c":
             if res != "ch%d" % op[1] or not immediate:
                 fails.append(("received-not-given", "fiber %d op %d: close returned %s" % (f, i, res)))
-        elif k == "y":
+        elif k == "y" or k == "x":
             if res != "nil":
-                fails.append(("received-not-given", "fiber %d op %d: (ev/sleep 0) returned %s" % (f, i, res)))
+                fails.append(("received-not-given", "fiber %d op %d: %s returned %s" % (f, i, op_tok(op), res)))
+        elif k == "d":
+            fails.append(("malformed-log", "result logged for a deadline marker"))
         else:
             # select / rselect: exactly one clause result, matching one of the clauses
             if immediate:
@@ -439,8 +494,9 @@ def oracle(prog, verdict, log):
     if verdict not in ("ok", "idle-forever"):
         fails.append(("abnormal-run", "verdict %s" % verdict))
     stats["errors"] = sum(1 for s in final["st"] if s.startswith("error"))
+    stats["cancelled_fibers"] = sum(1 for s in final["st"] if s in ("error:err-cancel", "error:err-deadline"))
     for f, s in enumerate(final["st"]):
-        if s.startswith("error") and s != "error:err-closed":
+        if s.startswith("error") and s not in (("error:err-closed", "error:err-cancel", "error:err-deadline") if timing else ("error:err-closed",)):
             fails.append(("unexpected-error", "fiber %d ended with %s" % (f, s)))
         if s in ("new", "alive"):
             fails.append(("abnormal-run", "fiber %d ended in state %s" % (f, s)))
